@@ -35,14 +35,17 @@ def valid(ctx, name, m, dig, minb, maxb, split, tier, timeout):
                         m, max(minb, 10 ** (dig - 1)), min(maxb, 10 ** dig - 1), dig, 'every sockRead request delivered in at most two chunks with an arbitrary split point' if split else 'every receiveBytes call returns an arbitrary 1..n bytes (all chunkings)', SCALE),
                     desc='valid stream is returned byte-identical, in order, consuming exactly its bytes'))
 
-def corrupt(ctx, name, L, fixp, split, tier, timeout, kfdefs, lenc=None, backend='default'):
-    defs = kfdefs + ['L=%d' % L, 'FIXP=%d' % fixp, 'STREAM_MAX=%d' % L, 'VF_CHUNK_MAX=%d' % max(13, L - 15), 'VF_MAXCOPY=%d' % (L + 1)] + (['VF_SPLIT1'] if split else []) + (['LENC=%d' % lenc] if lenc else [])
-    chunk = max(13, L - 15)
+def corrupt(ctx, name, L, fixp, mode, tier, timeout, kfdefs, lenc=None, tpl=0, backend='default'):
+    """mode: 'all' = every chunking, 'split' = one arbitrary split point per request, 'whole' = one chunk per request"""
+    chunk = max(13, L - 13)
+    defs = kfdefs + ['L=%d' % L, 'FIXP=%d' % fixp, 'TPL=%d' % tpl, 'STREAM_MAX=%d' % L, 'VF_CHUNK_MAX=%d' % chunk, 'VF_MAXCOPY=%d' % (L + 1)] + {'all': [], 'split': ['VF_SPLIT1'], 'whole': ['VF_WHOLE']}[mode] + (['LENC=%d' % lenc] if lenc else [])
+    shape = {0: 'arbitrary bytes', 1: 'bytes of the shape "8=FIX.4.2|9=" <1 arbitrary byte> SOH <arbitrary bytes>', 2: 'bytes of the shape "8=FIX.4.2|9=" <10 arbitrary bytes> SOH <arbitrary bytes>',
+             3: 'bytes of the shape <13 arbitrary bytes> "1"* SOH'}[tpl]
     ctx.add(Harness(name, VERIF + '/harness/C15_corrupt.c', defines=defs, unwind=4, backend=backend,
-                    unwindset=us(L + 2, L - 13 + 2, 3 if split else chunk + 2, chunk + 1, L + 2, L + 3, strlen=L + 2),
+                    unwindset=us(L + 2, L - 13 + 2, {'all': chunk + 2, 'split': 3, 'whole': 3}[mode], chunk + 1, L + 2, L + 3, strlen=L + 2),
                     timeout=timeout, mem_gb=16, functions=FUN, stubs=STUBS, tier=tier,
-                    bounds='stream of %s arbitrary bytes%s; %s; %s' % (('exactly %d' % lenc) if lenc else ('0..%d' % L), (' after the fixed text "8=FIX.4.2|9="' if fixp else ''),
-                        'at most two chunks per request' if split else 'all chunkings', SCALE),
+                    bounds='stream of %s %s%s; %s; %s' % (('exactly %d' % lenc) if lenc else ('0..%d' % L), shape, (' after the fixed text "8=FIX.4.2|9="' if fixp and not tpl else ''),
+                        {'all': 'all chunkings', 'split': 'at most two chunks per request (arbitrary split point)', 'whole': 'one chunk per request'}[mode], SCALE),
                     desc='a message is returned only for (and for every) well-formed preamble; otherwise error, no message; memory safety of read/extract_element'))
 
 def run(ctx):
@@ -50,15 +53,18 @@ def run(ctx):
     info = build(ctx)
     q = 'quick'; t = 'thorough'
     valid(ctx, 'C15_valid_m1_d1_split', 1, 1, 1, 9, True, q, 600)
-    corrupt(ctx, 'C15_len_L34_split', 34, 12, True, q, 600, defs)
-    corrupt(ctx, 'C15_any_L20_split', 20, 0, True, q, 600, defs)
-    corrupt(ctx, 'C15_any_L36_split', 36, 0, True, q, 600, defs)
+    corrupt(ctx, 'C15_len_L24_split', 24, 12, 'split', q, 600, defs)                       # BodyLength field and body arbitrary, any length up to 24
+    corrupt(ctx, 'C15_any_L20_split', 20, 0, 'split', q, 600, defs)                        # whole preamble arbitrary
+    corrupt(ctx, 'C15_len1_L32_whole', 32, 12, 'whole', q, 600, defs, lenc=32, tpl=1)      # one-byte BodyLength field (non-numeric lengths)
+    corrupt(ctx, 'C15_len10_L36_whole', 36, 12, 'whole', q, 600, defs, lenc=36, tpl=2)     # ten-byte BodyLength field (wrap-around of unsigned)
+    corrupt(ctx, 'C15_longfield_L35_whole', 35, 0, 'whole', q, 600, defs, lenc=35, tpl=3)  # long first field / digits-only garbage (tag[32], val[FLD])
     valid(ctx, 'C15_valid_m1_d1_all', 1, 1, 1, 9, False, t, 3000)
     valid(ctx, 'C15_valid_m2_d1_split', 2, 1, 1, 9, True, t, 3000)
     valid(ctx, 'C15_valid_m1_d2_all', 1, 2, 10, 12, False, t, 3000)
     valid(ctx, 'C15_valid_m2_d2_all', 2, 2, 10, 11, False, t, 3000)
-    corrupt(ctx, 'C15_len_L36_all', 36, 12, False, t, 3000, defs)
-    corrupt(ctx, 'C15_any_L24_all', 24, 0, False, t, 3000, defs)
+    corrupt(ctx, 'C15_len_L34_split', 34, 12, 'split', t, 3000, defs)
+    corrupt(ctx, 'C15_any_L24_all', 24, 0, 'all', t, 3000, defs)
+    corrupt(ctx, 'C15_any_L36_split', 36, 0, 'split', t, 3000, defs)
     ctx.assumptions += ['socket model: receiveBytes never returns a negative value (EAGAIN spinning and socket errors outside the claim); stream end = 0 = peer closed',
                         'buffered-read variant (FIX8_EXPERIMENTAL_BUFFERED_SOCKET_READ) and SSL not compiled', SCALE,
                         'the Session behind the reader is an opaque handle: get_ctx/update_received are cut points']
